@@ -357,6 +357,50 @@ fn i5() -> Vec<Case> {
     out
 }
 
+/// I6: ranges have no memory.  What `b..e` denotes, prints as, iterates over and selects from a sequence
+/// does not depend on which ranges were built before it in the same interpreter: every ordered pair of
+/// ranges with end points in [-2,3] is used one after the other (the first one once more at the end),
+/// directly and with nine other ranges built in between.
+fn i6() -> Vec<Case> {
+    let mut out = Vec::new();
+    let rng = |b: i32, e: i32| Expr::Paren(Box::new(bin(BinOp::Range, num(b as f64), num(e as f64))));
+    let probe = |e: Expr| st(StmtKind::Try(vec![print_stmt(e)], Some(("err".into(), vec![print_stmt(call(var("type"), vec![var("err")]))])), None));
+    let uses = |b: i32, e: i32| -> Vec<Stmt> {
+        vec![
+            probe(rng(b, e)),
+            probe(invoke(invoke(rng(b, e), "iter", vec![]), "collect", vec![])),
+            probe(index(var("v"), rng(b, e))),
+            probe(index(var("t"), rng(b, e))),
+            probe(index(s("abc"), rng(b, e))),
+            probe(bin(BinOp::Eq, rng(b, e), rng(b, e))),
+        ]
+    };
+    for churn in [false, true] {
+        for b1 in -2..=3 {
+            for e1 in -2..=3 {
+                let mut prog = vec![var_stmt("v", Expr::VecLit(vec![num(10.0), num(20.0), num(30.0)])), var_stmt("t", Expr::TupleLit(vec![num(10.0), num(20.0), num(30.0)]))];
+                if churn {
+                    prog.push(fn_stmt(func("others", &[], vec![st(StmtKind::For("i".into(), rng(0, 9), vec![var_stmt("r", bin(BinOp::Range, bin(BinOp::Add, num(100.0), var("i")), bin(BinOp::Sub, num(200.0), var("i"))))]))])));
+                }
+                // one program per first range: every second range after it, the first one again each time
+                for b2 in -2..=3 {
+                    for e2 in -2..=3 {
+                        prog.extend(uses(b1, e1));
+                        if churn {
+                            prog.push(expr_stmt(call(var("others"), vec![])));
+                        }
+                        prog.extend(uses(b2, e2));
+                        prog.push(probe(bin(BinOp::Eq, rng(b1, e1), rng(b2, e2))));
+                    }
+                }
+                prog.extend(uses(b1, e1));
+                out.push(Case::new("I6_ranges_have_no_memory", prog));
+            }
+        }
+    }
+    out
+}
+
 pub fn cases_for_c04(thorough: bool) -> Vec<Case> {
     i1(thorough).into_iter().chain(i1_extreme_ranges()).chain(i2(thorough)).chain(i4()).chain(i5()).collect()
 }
@@ -364,13 +408,13 @@ pub fn cases_for_c04(thorough: bool) -> Vec<Case> {
 pub fn run(ctx: &Ctx) -> Report {
     let mut report = Report::new();
     let thorough = ctx.thorough();
-    let cases = i1(thorough).into_iter().chain(i1_extreme_ranges()).chain(i2(thorough)).chain(i3(thorough)).chain(i4()).chain(i5());
+    let cases = i1(thorough).into_iter().chain(i1_extreme_ranges()).chain(i2(thorough)).chain(i3(thorough)).chain(i4()).chain(i5()).chain(i6());
     let hooks = Hooks { attribute: &|_c, _m, _o, _mm| None, nontrivial: &|_c, m| m.out.len() >= 2 || matches!(m.outcome, Outcome::Uncaught(_)), fuel: 2_000_000 };
     let stats = mcheck::run(ctx, cases, &hooks);
     mcheck::fill_report(
         &mut report,
         &stats,
-        "I1: a for loop over every vec/tuple of length 0-3, every range b..e with b,e in [-2,3], every string of up to 2/3 characters over a 1-4-byte alphabet, and user-defined iterables (an iterator: normal, early stop; an iterator whose iter() starts over; a collection whose iter() makes a new cursor object); and 16 ranges with end points at or beyond the largest machine integers, left by break; I2: break/continue/return at each element position, nested loops over one iterable, one shared iterator; I3: every map/filter chain up to depth 2/3 with callbacks {identity, transform, predicate, always false, throwing on the second call}, reduce, collect, bad callbacks - on user-defined iterables both through iter() and directly on the object, on a reused object and after a loop left by break; I4: non-iterables, broken protocols, StopIter subclass, exhausted iterators; I5: push/pop/set of a vec at each position during its own iteration. non-trivial = at least two lines or an error.",
+        "I1: a for loop over every vec/tuple of length 0-3, every range b..e with b,e in [-2,3], every string of up to 2/3 characters over a 1-4-byte alphabet, and user-defined iterables (an iterator: normal, early stop; an iterator whose iter() starts over; a collection whose iter() makes a new cursor object); and 16 ranges with end points at or beyond the largest machine integers, left by break; I2: break/continue/return at each element position, nested loops over one iterable, one shared iterator; I3: every map/filter chain up to depth 2/3 with callbacks {identity, transform, predicate, always false, throwing on the second call}, reduce, collect, bad callbacks - on user-defined iterables both through iter() and directly on the object, on a reused object and after a loop left by break; I4: non-iterables, broken protocols, StopIter subclass, exhausted iterators; I5: push/pop/set of a vec at each position during its own iteration; I6: every ordered pair of ranges with end points in [-2,3] used one after the other in one interpreter (printed, iterated, as index into a vec, a tuple and a string, compared), directly and with nine other ranges built in between, the first one used again after each. non-trivial = at least two lines or an error.",
         json!({"sequence_length": 3, "string_chars": if thorough { 3 } else { 2 }, "adapter_depth": if thorough { 3 } else { 2 }}),
     );
     report.assumptions = vec!["vec iteration is by cursor index into the live vec; `for` stops at an instance whose class is exactly StopIter (Appendix A)".into()];
